@@ -67,6 +67,7 @@ type c14Round struct {
 	statted map[core.TractID]map[int]c14StatInfo // stamps collected: tract -> host -> replica history at the stat
 	source  map[core.TractID]int                 // replica PackTracts copied the tract from
 	hinted  bool
+	plan    [3]int // planned pack fault of this round: piece, position (0 first 1 middle 2 last), mode (0 one 1 several 2 all); piece < 0 = none
 	base    int64 // first chunk id AllocateRSChunkIDs returned to this round (0 = none yet)
 }
 
@@ -95,6 +96,7 @@ type C14 struct {
 	failMask map[int]bool           // sources whose nested reads fail during the current PackTracts
 	failPair map[[2]uint64]bool     // (tract, source) reads that fail during the current PackTracts
 	nextFail map[[2]uint64]bool     // chosen by the scheduler for the next PackTracts step
+	PackPlan []int                  // if set: one planned pack fault per round, combinations (position*3+mode) taken in this order
 	K        int                    // tracts per piece: the round packs towards Target = K * padToLength
 	Target   int
 	lastSrc  map[core.TractID]int // last source asked per tract during the current PackTracts
@@ -510,7 +512,12 @@ func (d *C14) finishWrite(m *c14Write, res OpResult) {
 // StartRound starts one round of the storage-class loop under the current leader incarnation.
 func (d *C14) StartRound() {
 	cur := d.Cl.Cur
-	m := &c14Round{gen: cur.Gen, info: &curator.VerifC14Round{Arrange: d.R.Perm}, statted: map[core.TractID]map[int]c14StatInfo{}, source: map[core.TractID]int{}}
+	plan := [3]int{-1, 0, 0}
+	if len(d.PackPlan) > 0 {
+		c := d.PackPlan[d.NRounds%len(d.PackPlan)]
+		plan = [3]int{d.R.Intn(C14N), c / 3, c % 3}
+	}
+	m := &c14Round{gen: cur.Gen, plan: plan, info: &curator.VerifC14Round{Arrange: d.R.Perm}, statted: map[core.TractID]map[int]c14StatInfo{}, source: map[core.TractID]int{}}
 	before := make([]curator.VerifC14Blob, len(d.Blobs))
 	for i := range d.Blobs {
 		before[i] = d.durable(i)
@@ -1098,7 +1105,7 @@ func (d *C14) pickMode(w C14Weights, r *RPC) int {
 // piece (first / middle / last / only) none, one, several or all of its sources.  The choice is left in
 // d.nextFail for Step.
 func (d *C14) packFail(w C14Weights, r *RPC) []int {
-	if r.Kind != KPackTracts || d.R.Intn(1000) >= w.PPackFail {
+	if r.Kind != KPackTracts {
 		return nil
 	}
 	m := d.roundOfGen(r.Gen)
@@ -1111,11 +1118,32 @@ func (d *C14) packFail(w C14Weights, r *RPC) []int {
 		return nil
 	}
 	specs := m.info.Chunks[idx].Tracts
+	planned := len(d.PackPlan) > 0
+	if planned && (m.plan[0] != idx%C14N || idx >= C14N) {
+		return nil // the round's one planned fault is for another piece
+	}
+	if !planned && d.R.Intn(1000) >= w.PPackFail {
+		return nil
+	}
 	fail := map[[2]uint64]bool{}
-	// at least one tract of the piece is hit; which one is drawn uniformly over the positions
+	// at least one tract of the piece is hit; which one is drawn uniformly over the positions (or planned)
 	hit := d.R.Intn(len(specs))
+	if planned {
+		switch m.plan[1] {
+		case 0:
+			hit = 0
+		case 2:
+			hit = len(specs) - 1
+		default:
+			hit = len(specs) / 2
+			if len(specs) == 2 {
+				hit = 0
+			}
+		}
+		m.plan[0] = -1
+	}
 	for ti, sp := range specs {
-		if ti != hit && !d.R.Chance(1, 4) {
+		if ti != hit && (planned || !d.R.Chance(1, 4)) {
 			continue
 		}
 		pos := "middle"
@@ -1135,6 +1163,9 @@ func (d *C14) packFail(w C14Weights, r *RPC) []int {
 			continue
 		}
 		mode := d.R.PickInt(0, 1, 2, 2)
+		if planned {
+			mode = m.plan[2]
+		}
 		n := 1
 		name := "one"
 		switch {
